@@ -50,8 +50,8 @@ Variable c : vcfg.
 Lemma collect_list_ctx v dc p v1 dc' p' : collect_list c v dc p = (v1, OK (dc', p')) -> ctx_same dc dc'.
 Proof.
   unfold collect_list. destruct (project v (dc_lr dc)); [|discriminate]. destruct (get_blist v (dc_lr dc)); [|discriminate].
-  destruct (Defrag.collect_moves _ _ _) as (cs & wr). destruct wr; try discriminate;
-    (destruct (commit_moves c _ _ _) as (v2 & r); destruct r as [[]|code| |]; try discriminate; intros H; injection H as _ <- _; split; reflexivity).
+  destruct (Defrag.collect_moves_f _ _ _ _ _ _) as (((cs & env) & log) & wr). destruct wr; try discriminate;
+    (destruct (replay_log c _ _ _) as (v2 & r); destruct r as [[]|code| |]; try discriminate; intros H; injection H as _ <- _; split; reflexivity).
 Qed.
 
 Lemma pass_loop_ctxs fuel : forall v run p, ctxs_same (dr_ctxs run) (dr_ctxs (snd (fst (pass_loop c fuel v run p)))).
@@ -256,16 +256,25 @@ Proof using Ha. intros R. destruct (reachDK_inv _ _ _ R) as (K & Rr). apply dpas
 Definition drun_exists (run : option dfrun) (o : dop) : Prop :=
   match o, run with DBegin _ _ _ _, _ => True | _, Some _ => True | _, None => False end.
 
-(* C13 for the defragmentation calls: never a panic, for any fault oracle; outside the model only BeginDefragPass
-   after a vkMapMemory of the pass failed *)
+(* C13 for the defragmentation calls: never a panic, never outside the model, for any fault oracle (a vkMapMemory that
+   fails while BeginDefragPass commits a move makes the planner go on, as in the real code) *)
+Theorem dstep_never_fails_full v run G o f v' run' r calls dr :
+  reachDK v run G -> dop_ok v run o -> dop_bal G run o -> drun_exists run o ->
+  dstep c v run o f = (v', run', r, calls, dr) -> r <> RPanic /\ r <> RStuck.
+Proof using Ha.
+  intros R Hok Hbal Hex Hs. apply (dstep_never_fails c Ha v run G o f v' run' r calls dr (reachDK_reachDB _ _ _ R) Hok Hbal); [|exact Hs].
+  destruct o as [flags pool mb ma| |ds|]; cbn [dop_live drun_exists] in *; auto; destruct run as [rn|]; auto.
+  apply (reachDK_dpass_inv v rn G R).
+Qed.
+
+(* the earlier, weaker form, kept under its name *)
 Theorem dstep_never_panics_full v run G o f v' run' r calls dr :
   reachDK v run G -> dop_ok v run o -> dop_bal G run o -> drun_exists run o ->
   dstep c v run o f = (v', run', r, calls, dr) ->
   r <> RPanic /\ (r = RStuck -> o = DPass /\ exists mem off size code, code <> 0 /\ In (CMap mem off size code) calls).
 Proof using Ha.
-  intros R Hok Hbal Hex Hs. apply (dstep_never_panics c Ha v run G o f v' run' r calls dr (reachDK_reachDB _ _ _ R) Hok Hbal); [|exact Hs].
-  destruct o as [flags pool mb ma| |ds|]; cbn [dop_live drun_exists] in *; auto; destruct run as [rn|]; auto.
-  apply (reachDK_dpass_inv v rn G R).
+  intros R Hok Hbal Hex Hs. destruct (dstep_never_fails_full v run G o f v' run' r calls dr R Hok Hbal Hex Hs) as (A & B).
+  split; [exact A|]. intros E. contradiction.
 Qed.
 
 End Thm.
